@@ -129,6 +129,23 @@ theorem add_sorted (reg : Registry) (mk : Factory) (ty : CtxType) (e : Nat) (h :
     have := insert_sorted reg g h
     rwa [hg] at this
 
+def Group.instances : Group → List ContextInstance
+  | .exclusive _ is => is.map (·.2)
+  | .shared _ _ ctx => [ctx]
+
+theorem mem_swapRemove.{u} {α : Type u} (l : List α) (i : Nat) (x : α) (h : x ∈ swapRemove l i) : x ∈ l := by
+  unfold swapRemove at h
+  split at h
+  · cases hl : l.getLast? with
+    | none => rw [hl] at h; exact h
+    | some last =>
+      rw [hl] at h
+      have h1 := List.dropLast_subset _ h
+      rcases List.mem_or_eq_of_mem_set h1 with h2 | h2
+      · exact h2
+      · rw [h2]; exact List.mem_of_getLast? hl
+  · exact List.dropLast_subset _ h
+
 /-- the instance a group holds for an entity -/
 def Group.ctxOf (g : Group) (e : Nat) : Option ContextInstance :=
   match g with
@@ -152,7 +169,7 @@ theorem remove_char (reg : Registry) (t : Tick) (c e : Nat) (reg' : Registry) (d
       ∧ ctx.triggerRemoved t [e] = some dl
       ∧ ((reg' = reg.eraseIdx gi ∧ swapRemove g.entities (g.entities.findIdx (· == e)) = [])
          ∨ ∃ g', g'.ty = g.ty ∧ g'.entities = swapRemove g.entities (g.entities.findIdx (· == e))
-              ∧ g'.entities ≠ [] ∧ reg' = reg.set gi g') := by
+              ∧ g'.entities ≠ [] ∧ reg' = reg.set gi g' ∧ (∀ ci ∈ g'.instances, ci ∈ g.instances)) := by
   unfold Registry.remove at hr
   cases hi : reg.index c with
   | none => simp [hi] at hr
@@ -199,7 +216,12 @@ theorem remove_char (reg : Registry) (t : Tick) (c e : Nat) (reg' : Registry) (d
             · simp only [hemp, Bool.false_eq_true, if_false, Option.some.injEq, Prod.mk.injEq] at hr
               obtain ⟨hr1, hr2⟩ := hr
               subst hr2
-              refine ⟨gi, _, ctx, rfl, hg, hctx, htr, Or.inr ⟨Group.exclusive ty (swapRemove is (List.findIdx (fun p => p.1 == e) is)), rfl, ?_, ?_, hr1.symm⟩⟩
+              refine ⟨gi, _, ctx, rfl, hg, hctx, htr, Or.inr ⟨Group.exclusive ty (swapRemove is (List.findIdx (fun p => p.1 == e) is)), rfl, ?_, ?_, hr1.symm, ?_⟩⟩
+              rotate_left 2
+              · intro ci hci
+                simp only [Group.instances, List.mem_map] at hci ⊢
+                obtain ⟨q, hq, rfl⟩ := hci
+                exact ⟨q, mem_swapRemove _ _ _ hq, rfl⟩
               · simp only [Group.entities]; exact hsw
               · simp only [Group.entities]
                 intro hnil
@@ -231,7 +253,7 @@ theorem remove_char (reg : Registry) (t : Tick) (c e : Nat) (reg' : Registry) (d
             · simp only [hemp, Bool.false_eq_true, if_false, Option.some.injEq, Prod.mk.injEq] at hr
               obtain ⟨hr1, hr2⟩ := hr
               subst hr2
-              refine ⟨gi, _, ctx, rfl, hg, hctx, htr, Or.inr ⟨Group.shared ty (swapRemove es (List.findIdx (fun x => x == e) es)) ctx, rfl, rfl, ?_, hr1.symm⟩⟩
+              refine ⟨gi, _, ctx, rfl, hg, hctx, htr, Or.inr ⟨Group.shared ty (swapRemove es (List.findIdx (fun x => x == e) es)) ctx, rfl, rfl, ?_, hr1.symm, fun ci hci => hci⟩⟩
               simp only [Group.entities]
               intro hnil
               apply hemp
@@ -242,7 +264,7 @@ theorem remove_char (reg : Registry) (t : Tick) (c e : Nat) (reg' : Registry) (d
 theorem remove_sorted (reg : Registry) (t : Tick) (c e : Nat) (reg' : Registry) (dl : List Delivery)
     (h : SortedDesc reg) (hr : reg.remove t c e = some (reg', dl)) : SortedDesc reg' := by
   obtain ⟨gi, g, ctx, _, hg, _, _, hcase⟩ := remove_char reg t c e reg' dl hr
-  rcases hcase with ⟨rfl, _⟩ | ⟨g', hty, _, _, rfl⟩
+  rcases hcase with ⟨rfl, _⟩ | ⟨g', hty, _, _, rfl, _⟩
   · exact sorted_eraseIdx _ _ h
   · apply sorted_of_map_eq reg _ _ h
     symm; apply map_set_same
